@@ -1,2 +1,88 @@
-(* placeholder until the heap proofs land *)
-From OPF Require Import Model.Heap.
+From OPF Require Import Proofs.HeapPrelude Base.Lists Model.Heap Proofs.HeapInv Proofs.HeapHist.
+
+Theorem C05_inv_reachable :
+  forall (top : Z) (size : nat) (pol : policy) (ops : list (@op Z)),
+    valid_hist top (h_init top size pol) ops ->
+    let h := fst (run Z.ltb top (h_init top size pol) ops) in
+    Inv h /\ hsize h = size /\ hpol h = pol.
+Proof. exact hist_inv. Qed.
+
+Theorem C05_inv_step :
+  forall (top : Z) (h : heap Z) (o : @op Z),
+    Inv h -> valid_op top h o ->
+    Inv (fst (step Z.ltb top h o)) /\
+    hsize (fst (step Z.ltb top h o)) = hsize h /\ hpol (fst (step Z.ltb top h o)) = hpol h.
+Proof. exact step_inv. Qed.
+
+Theorem C05_remove_extremal :
+  forall (top : Z) (size : nat) (pol : policy) (ops : list (@op Z)),
+    valid_hist top (h_init top size pol) ops ->
+    let h := fst (run Z.ltb top (h_init top size pol) ops) in
+    match step Z.ltb top h ORem with
+    | (h', RElem p) =>
+        In p (queued h) /\
+        (forall q, In q (queued h) ->
+           better Z.ltb pol (nth q (hcost h) top) (nth p (hcost h) top) = false) /\
+        Permutation (queued h) (p :: queued h') /\ hcost h' = hcost h
+    | (h', RFalse) => queued h = [] /\ h' = h
+    | _ => False
+    end.
+Proof. exact hist_remove_extremal. Qed.
+
+Theorem C05_histories_refine_pq :
+  forall (top : Z) (size : nat) (pol : policy) (ops : list (@op Z)),
+    valid_hist top (h_init top size pol) ops ->
+    pq_run top size pol (abs (h_init top size pol)) ops
+           (snd (run Z.ltb top (h_init top size pol) ops))
+           (abs (fst (run Z.ltb top (h_init top size pol) ops))).
+Proof. exact histories_refine_pq. Qed.
+
+Theorem C05_step_refines_pq :
+  forall (top : Z) (h : heap Z) (o : @op Z),
+    Inv h -> valid_op top h o ->
+    let '(h', r) := step Z.ltb top h o in
+    Inv h' /\ hsize h' = hsize h /\ hpol h' = hpol h /\
+    pq_step top (hsize h) (hpol h) (abs h) o r (abs h') /\
+    Permutation (queued h ++ ins_of h o r) (rem_of r ++ queued h').
+Proof. exact step_spec. Qed.
+
+Theorem C05_conservation :
+  forall (top : Z) (size : nat) (pol : policy) (ops : list (@op Z)),
+    valid_hist top (h_init top size pol) ops ->
+    Permutation (inserted top (h_init top size pol) ops)
+                (removed (snd (run Z.ltb top (h_init top size pol) ops))
+                 ++ queued (fst (run Z.ltb top (h_init top size pol) ops))).
+Proof. exact conservation. Qed.
+
+Theorem C05_failures_leave_state :
+  forall (top : Z) (size : nat) (pol : policy) (ops : list (@op Z)),
+    valid_hist top (h_init top size pol) ops ->
+    let h := fst (run Z.ltb top (h_init top size pol) ops) in
+    (forall p, snd (step Z.ltb top h (OIns p)) = RBool (negb (is_full h))) /\
+    (forall p, is_full h = true -> step Z.ltb top h (OIns p) = (h, RBool false)) /\
+    (is_empty h = true -> step Z.ltb top h ORem = (h, RFalse)) /\
+    (forall p c, nth p (hcolor h) White = White -> is_full h = true ->
+                 step Z.ltb top h (OUpd p c) = (set_cost h p c, RUnit)).
+Proof. exact hist_failures_leave_state. Qed.
+
+Theorem C05_empty_full_truthful :
+  forall (top : Z) (size : nat) (pol : policy) (ops : list (@op Z)),
+    valid_hist top (h_init top size pol) ops ->
+    let h := fst (run Z.ltb top (h_init top size pol) ops) in
+    (exists b, step Z.ltb top h OIsEmpty = (h, RBool b) /\ (b = true <-> queued h = [])) /\
+    (exists b, step Z.ltb top h OIsFull = (h, RBool b) /\
+               (b = true <-> length (queued h) = size)).
+Proof. exact hist_empty_full_truthful. Qed.
+
+Theorem C05_valid_prefix :
+  forall (top : Z) (ops1 ops2 : list (@op Z)) (h : heap Z),
+    valid_hist top h (ops1 ++ ops2) <->
+    valid_hist top h ops1 /\ valid_hist top (fst (run Z.ltb top h ops1)) ops2.
+Proof. exact valid_hist_app. Qed.
+
+Theorem C05_run_prefix :
+  forall (top : Z) (ops1 ops2 : list (@op Z)) (h : heap Z),
+    run Z.ltb top h (ops1 ++ ops2) =
+      (fst (run Z.ltb top (fst (run Z.ltb top h ops1)) ops2),
+       snd (run Z.ltb top h ops1) ++ snd (run Z.ltb top (fst (run Z.ltb top h ops1)) ops2)).
+Proof. exact run_app. Qed.
